@@ -4,7 +4,7 @@
    Consumers receive LABELS: each label stands for the serialised bytes of one
    published message (or TS blob); the byte-level meaning is [label_bytes] in
    GroupFanoutBytes.v.  No proofs here. *)
-From Lal Require Import Common.LBytes Group.GroupMsg Group.GroupGopCache.
+From Lal Require Import Common.LBytes Rtmp.RtmpMetadata Group.GroupMsg Group.GroupGopCache.
 Open Scope N_scope.
 
 Inductive label :=
@@ -12,7 +12,8 @@ Inductive label :=
 | LCW (i : nat)     (* RTMP chunks of metadata message i with @setDataFrame ensured *)
 | LT (i : nat)      (* FLV tag of message i (metadata: @setDataFrame stripped) *)
 | LTs (j : nat)     (* j-th TS packet blob handed to OnTsPackets *)
-| LPat (k : nat).   (* k-th PAT/PMT blob handed to OnPatPmt *)
+| LPat (k : nat)    (* k-th PAT/PMT blob handed to OnPatPmt *)
+| LSdp (k : nat).   (* k-th SDP handed to OnSdp *)
 
 Inductive ckind := KRtmp | KFlv | KPush | KTs.
 
@@ -43,6 +44,7 @@ Record gstate := mk_gstate {
   g_flv_cache : gop_cache label;
   g_ts_cache : gop_cache label;
   g_patpmt : option label;
+  g_sdp : option label; g_next_sdp : nat;   (* sdpCtx (what DESCRIBE is answered with) *)
   g_merge : list label; g_merge_size : N;  (* MergeWriter.bs / currSize *)
   g_video_known : bool;                    (* stat.VideoCodec != "" *)
   g_subs : list consumer;                  (* attached consumers, iteration order *)
@@ -57,7 +59,7 @@ Definition g_init (c : cfg) : gstate :=
      g_rtmp_cache := gc_new (cf_rtmp_gop c) (cf_rtmp_max c);
      g_flv_cache := gc_new (cf_flv_gop c) (cf_flv_max c);
      g_ts_cache := gc_new (cf_ts_gop c) (cf_ts_max c);
-     g_patpmt := None; g_merge := []; g_merge_size := 0; g_video_known := false;
+     g_patpmt := None; g_sdp := None; g_next_sdp := 0; g_merge := []; g_merge_size := 0; g_video_known := false;
      g_subs := []; g_gone := []; g_rec_open := false; g_rec := []; g_in := false |}.
 
 Inductive ev :=
@@ -66,7 +68,9 @@ Inductive ev :=
 | EvLeave (id : N)
 | EvInStart | EvInStop
 | EvTs (boundary : bool)      (* OnTsPackets(blob, frame, boundary) *)
-| EvPatPmt.                   (* OnPatPmt(blob) *)
+| EvPatPmt                    (* OnPatPmt(blob) *)
+| EvSdp                       (* OnSdp(ctx): an RTSP publisher / pull / the RTSP remuxer announces its SDP *)
+| EvDescribe (id : N).        (* HandleNewRtspSubSessionDescribe: answered with the current SDP, if any *)
 
 Definition admitted (c : consumer) : bool := negb (c_fresh c) && negb (c_wait c).
 
@@ -161,7 +165,7 @@ Definition flv_step (cache : gop_cache label) (key : bool) (lt : label) (c : con
 Definition set_subs (s : gstate) subs merge msize : gstate :=
   {| g_next := g_next s; g_next_ts := g_next_ts s; g_next_pat := g_next_pat s;
      g_rtmp_cache := g_rtmp_cache s; g_flv_cache := g_flv_cache s; g_ts_cache := g_ts_cache s;
-     g_patpmt := g_patpmt s; g_merge := merge; g_merge_size := msize; g_video_known := g_video_known s;
+     g_patpmt := g_patpmt s; g_sdp := g_sdp s; g_next_sdp := g_next_sdp s; g_merge := merge; g_merge_size := msize; g_video_known := g_video_known s;
      g_subs := subs; g_gone := g_gone s; g_rec_open := g_rec_open s; g_rec := g_rec s; g_in := g_in s |}.
 
 Definition rec_append (r : list (list label)) (l : label) : list (list label) :=
@@ -172,7 +176,7 @@ Definition publish (c : cfg) (s : gstate) (m : rmsg) : gstate :=
   let bump (s' : gstate) :=
     {| g_next := S i; g_next_ts := g_next_ts s'; g_next_pat := g_next_pat s';
        g_rtmp_cache := g_rtmp_cache s'; g_flv_cache := g_flv_cache s'; g_ts_cache := g_ts_cache s';
-       g_patpmt := g_patpmt s'; g_merge := g_merge s'; g_merge_size := g_merge_size s';
+       g_patpmt := g_patpmt s'; g_sdp := g_sdp s'; g_next_sdp := g_next_sdp s'; g_merge := g_merge s'; g_merge_size := g_merge_size s';
        g_video_known := g_video_known s'; g_subs := g_subs s'; g_gone := g_gone s';
        g_rec_open := g_rec_open s'; g_rec := g_rec s'; g_in := g_in s' |} in
   if Nat.eqb (length (rm_payload m)) 0 then bump s
@@ -198,17 +202,17 @@ Definition publish (c : cfg) (s : gstate) (m : rmsg) : gstate :=
     let rec' := if g_rec_open s then rec_append (g_rec s) (LT i) else g_rec s in
     (* caches are fed after the fan-out *)
     let rc := if cf_rtmp_enable c then
-                let g1 := fst (gc_feed (g_rtmp_cache s) cls (LC i)) in
+                let g1 := fst (gc_feed (g_rtmp_cache s) cls (LC i) (rm_payload m)) in
                 if rm_type m =? type_metadata then gc_set_metadata g1 (lcw m i) (LC i) else g1
               else g_rtmp_cache s in
     let fc := if cf_flv_enable c then
-                let g1 := fst (gc_feed (g_flv_cache s) cls (LT i)) in
+                let g1 := fst (gc_feed (g_flv_cache s) cls (LT i) (rm_payload m)) in
                 if rm_type m =? type_metadata then gc_set_metadata g1 (LT i) (LT i) else g1
               else g_flv_cache s in
     let vk := g_video_known s || is_avc_key_seq_header m || is_hevc_key_seq_header m in
     {| g_next := S i; g_next_ts := g_next_ts s; g_next_pat := g_next_pat s;
        g_rtmp_cache := rc; g_flv_cache := fc; g_ts_cache := g_ts_cache s;
-       g_patpmt := g_patpmt s; g_merge := merge2; g_merge_size := msize2; g_video_known := vk;
+       g_patpmt := g_patpmt s; g_sdp := g_sdp s; g_next_sdp := g_next_sdp s; g_merge := merge2; g_merge_size := msize2; g_video_known := vk;
        g_subs := subs4; g_gone := g_gone s; g_rec_open := g_rec_open s; g_rec := rec'; g_in := g_in s |}.
 
 Definition ts_step (cache : gop_cache label) (pat : option label) (boundary : bool) (lt : label) (c : consumer) : consumer :=
@@ -225,10 +229,10 @@ Definition ts_step (cache : gop_cache label) (pat : option label) (boundary : bo
 Definition feed_ts (c : cfg) (s : gstate) (boundary : bool) : gstate :=
   let j := g_next_ts s in
   let subs' := map (ts_step (g_ts_cache s) (g_patpmt s) boundary (LTs j)) (g_subs s) in
-  let tc := fst (gc_feed (g_ts_cache s) (if boundary then MKey else MOther) (LTs j)) in
+  let tc := fst (gc_feed (g_ts_cache s) (if boundary then MKey else MOther) (LTs j) []) in
   {| g_next := g_next s; g_next_ts := S j; g_next_pat := g_next_pat s;
      g_rtmp_cache := g_rtmp_cache s; g_flv_cache := g_flv_cache s; g_ts_cache := tc;
-     g_patpmt := g_patpmt s; g_merge := g_merge s; g_merge_size := g_merge_size s;
+     g_patpmt := g_patpmt s; g_sdp := g_sdp s; g_next_sdp := g_next_sdp s; g_merge := g_merge s; g_merge_size := g_merge_size s;
      g_video_known := g_video_known s; g_subs := subs'; g_gone := g_gone s;
      g_rec_open := g_rec_open s; g_rec := g_rec s; g_in := g_in s |}.
 
@@ -253,14 +257,14 @@ Definition step (c : cfg) (s : gstate) (e : ev) : gstate :=
       let '(gone, stay) := partition (fun x => c_id x =? id) (g_subs s) in
       {| g_next := g_next s; g_next_ts := g_next_ts s; g_next_pat := g_next_pat s;
          g_rtmp_cache := g_rtmp_cache s; g_flv_cache := g_flv_cache s; g_ts_cache := g_ts_cache s;
-         g_patpmt := g_patpmt s; g_merge := g_merge s; g_merge_size := g_merge_size s;
+         g_patpmt := g_patpmt s; g_sdp := g_sdp s; g_next_sdp := g_next_sdp s; g_merge := g_merge s; g_merge_size := g_merge_size s;
          g_video_known := g_video_known s; g_subs := stay; g_gone := g_gone s ++ gone;
          g_rec_open := g_rec_open s; g_rec := g_rec s; g_in := g_in s |}
   | EvInStart =>
       if g_in s then s else
       {| g_next := g_next s; g_next_ts := g_next_ts s; g_next_pat := g_next_pat s;
          g_rtmp_cache := g_rtmp_cache s; g_flv_cache := g_flv_cache s; g_ts_cache := g_ts_cache s;
-         g_patpmt := g_patpmt s; g_merge := g_merge s; g_merge_size := g_merge_size s;
+         g_patpmt := g_patpmt s; g_sdp := g_sdp s; g_next_sdp := g_next_sdp s; g_merge := g_merge s; g_merge_size := g_merge_size s;
          g_video_known := g_video_known s; g_subs := g_subs s; g_gone := g_gone s;
          g_rec_open := cf_record_flv c;
          g_rec := if cf_record_flv c then [] :: g_rec s else g_rec s; g_in := true |}
@@ -272,7 +276,7 @@ Definition step (c : cfg) (s : gstate) (e : ev) : gstate :=
       {| g_next := g_next s; g_next_ts := g_next_ts s; g_next_pat := g_next_pat s;
          g_rtmp_cache := gc_clear (g_rtmp_cache s); g_flv_cache := gc_clear (g_flv_cache s);
          g_ts_cache := gc_clear (g_ts_cache s);
-         g_patpmt := None; g_merge := g_merge s; g_merge_size := g_merge_size s;
+         g_patpmt := None; g_sdp := None; g_next_sdp := g_next_sdp s; g_merge := g_merge s; g_merge_size := g_merge_size s;
          g_video_known := false; g_subs := stay; g_gone := g_gone s ++ pushes;
          g_rec_open := false; g_rec := g_rec s; g_in := false |}
   | EvTs boundary => feed_ts c s boundary
@@ -280,8 +284,26 @@ Definition step (c : cfg) (s : gstate) (e : ev) : gstate :=
       let k := g_next_pat s in
       {| g_next := g_next s; g_next_ts := g_next_ts s; g_next_pat := S k;
          g_rtmp_cache := g_rtmp_cache s; g_flv_cache := g_flv_cache s; g_ts_cache := g_ts_cache s;
-         g_patpmt := Some (LPat k); g_merge := g_merge s; g_merge_size := g_merge_size s;
+         g_patpmt := Some (LPat k); g_sdp := g_sdp s; g_next_sdp := g_next_sdp s; g_merge := g_merge s; g_merge_size := g_merge_size s;
+         g_video_known := g_video_known s;
+         (* sessions past their prologue get the new tables at once (fix F-08iii) *)
+         g_subs := map (fun c => if ckind_eqb (c_kind c) KTs && negb (c_fresh c) then c_append c [LPat k] else c) (g_subs s);
+         g_gone := g_gone s;
+         g_rec_open := g_rec_open s; g_rec := g_rec s; g_in := g_in s |}
+  | EvSdp =>
+      let k := g_next_sdp s in
+      {| g_next := g_next s; g_next_ts := g_next_ts s; g_next_pat := g_next_pat s;
+         g_rtmp_cache := g_rtmp_cache s; g_flv_cache := g_flv_cache s; g_ts_cache := g_ts_cache s;
+         g_patpmt := g_patpmt s; g_sdp := Some (LSdp k); g_next_sdp := S k; g_merge := g_merge s; g_merge_size := g_merge_size s;
          g_video_known := g_video_known s; g_subs := g_subs s; g_gone := g_gone s;
+         g_rec_open := g_rec_open s; g_rec := g_rec s; g_in := g_in s |}
+  | EvDescribe id =>
+      (* the answer is recorded as a detached pseudo-consumer (kind KTs, never attached) *)
+      {| g_next := g_next s; g_next_ts := g_next_ts s; g_next_pat := g_next_pat s;
+         g_rtmp_cache := g_rtmp_cache s; g_flv_cache := g_flv_cache s; g_ts_cache := g_ts_cache s;
+         g_patpmt := g_patpmt s; g_sdp := g_sdp s; g_next_sdp := g_next_sdp s; g_merge := g_merge s; g_merge_size := g_merge_size s;
+         g_video_known := g_video_known s; g_subs := g_subs s;
+         g_gone := g_gone s ++ [{| c_id := id; c_kind := KTs; c_fresh := false; c_wait := false; c_out := opt_list (g_sdp s) |}];
          g_rec_open := g_rec_open s; g_rec := g_rec s; g_in := g_in s |}
   end.
 
